@@ -66,6 +66,19 @@ DIRECTED_PAIRS = [
 ]
 
 
+# operands on both sides of the signed / unsigned boundary (mod 2^256 this is also the int256 set {-1, -2^255, 2^255-1, 0, 1})
+SIGNSET = [0, 1, 5, (1 << 255) - 1, 1 << 255, (1 << 255) + 1, W - 1]
+ORDERED = ("assertLt(", "assertGt(", "assertLe(", "assertGe(")
+
+
+def is_ordered_sig(sig):
+    return bool(sig) and sig.startswith(ORDERED)
+
+
+def cross_sign(x, y):
+    return (x >> 255) != (y >> 255)
+
+
 # --------------------------------------------------------------------------------------------------------- cases
 
 def V(i):
@@ -215,6 +228,13 @@ class Gen:
         out.append(Case(sel, encode(sel, [self.word(), V(0)], m()), tag="cs"))
         for _ in range(6 if self.thorough else 1):
             out.append(Case(sel, encode(sel, [self.word(), self.word()], m()), tag="cc-rand"))
+        if e["op"] in ("Lt", "Gt", "Le", "Ge"):
+            # ordered comparisons: every pair of operands around the signed / unsigned boundary, concrete and half-symbolic
+            for x in SIGNSET:
+                for y in SIGNSET:
+                    out.append(Case(sel, encode(sel, [x, y], m()), tag="signcc-x" if cross_sign(x, y) else "signcc"))
+                out.append(Case(sel, encode(sel, [V(0), x], m()), tag="signsc"))
+                out.append(Case(sel, encode(sel, [x, V(0)], m()), tag="signcs"))
         for lit in self.special:
             for d in (-1, 0, 1):
                 v = (lit + d) % W
@@ -404,11 +424,31 @@ class Gen:
         out.append(Case(ASSUME_SEL, [V(0)], tag="assume-s", sig="assume(bool)"))
         return out
 
-    def envs(self, case, k):
+    def sign_envs(self, nv, cap=None):
+        """valuations from SIGNSET; for two or more variables all pairs, those on opposite sides of 2^255 first"""
+        if nv == 1:
+            out = [[v] for v in SIGNSET]
+        else:
+            pairs = [(x, y) for x in SIGNSET for y in SIGNSET]
+            pairs = [p for p in pairs if cross_sign(*p)] + [p for p in pairs if not cross_sign(*p)]
+            if cap is not None:
+                cross = [p for p in pairs if cross_sign(*p)]
+                rest = [p for p in pairs if not cross_sign(*p)]
+                self.rng.shuffle(cross)
+                self.rng.shuffle(rest)
+                pairs = cross[: max(cap - 4, cap * 2 // 3)] + rest[: max(4, cap // 3)]
+            out = [[x if i % 2 == 0 else y for i in range(nv)] for x, y in pairs]
+        return out
+
+    def envs(self, case, k, cap=None):
         """value assignments for the variables of a case"""
         nv = case.nvars()
         if nv == 0:
             return [[]]
+        if is_ordered_sig(case.sig):
+            if nv >= 2 and cap is None and case.tag != "ss":
+                cap = 12            # all 49 pairs only for the plain (a0, a1) case
+            return self.sign_envs(nv, cap) + [[self.word() for _ in range(nv)] for _ in range(1 if nv == 1 else 2)]
         out = []
         pairs = list(DIRECTED_PAIRS)
         self.rng.shuffle(pairs)
@@ -920,9 +960,20 @@ class Truth(dict):
         return v
 
 
-def level1(ctx, R, G, entries, by_sel):
+def level1(ctx, R, G, entries, by_sel, corpus=()):
     """direct calls of the real handle(); returns records (case, pi, result, envs, request indices)"""
     recs, lines = [], []
+    for data in corpus:
+        if data.get("level") != 1:
+            continue
+        case = Case.from_json(data["case"])
+        vals = [int(v, 16) for v in data["vals"]]
+        pname = data.get("pi", "none")
+        res = R.direct(case, PI_BUILDERS[pname])
+        orc = res.get("oracle", [])
+        lines.append(request(case, vals, orc[0] if orc else "sat", orc[1] if len(orc) > 1 else "sat"))
+        recs.append(Truth({"case": case, "pi": pname, "res": res, "envs": [vals], "idx": [len(lines) - 1]}, R))
+        ctx.count("l1:corpus")
     cases = []
     for e in entries:
         cs = G.cases_for(e) + G.truncated_cases(e)
@@ -934,11 +985,11 @@ def level1(ctx, R, G, entries, by_sel):
                                  Case(0, [], n=0, tag="empty")]
     for case in cases:
         pis = ["none"]
-        if case.nvars() >= 1 and not case.tag.startswith(("err", "trunc")):
+        if case.nvars() >= 1 and not case.tag.startswith(("err", "trunc", "signsc", "signcs")):
             pis.append(G.rng.choice(["a0==a1", "a0<a1", "a0==5", "a0!=0", "a0==0"] if case.nvars() >= 2 else ["a0==5", "a0!=0", "a0==0"]))
         for pname in pis:
             res = R.direct(case, PI_BUILDERS[pname])
-            envs = G.envs(case, ctx.scale(4, 8))
+            envs = G.envs(case, ctx.scale(4, 8), cap=None if pname == "none" else 12)
             cond = res.get("cond")
             cc = cn = "sat"       # the true satisfiability answers are computed lazily (Truth) — only mismatch analysis needs them
             idx = []
@@ -1100,6 +1151,13 @@ def level2_programs(ctx, G, entries):
             pick += rng.sample(sym, min(len(sym), ctx.scale(2, 4)))
         if conc:
             pick += rng.sample(conc, min(len(conc), ctx.scale(1, 3)))
+        if e["op"] in ("Lt", "Gt", "Le", "Ge"):
+            # operands on opposite sides of 2^255: always through the SEVM too (concrete, half-symbolic, symbolic)
+            pick += [c for c in sym if c.tag == "ss" and c not in pick]
+            half = [c for c in sym if c.tag in ("signsc", "signcs") and c not in pick]
+            pick += rng.sample(half, min(len(half), ctx.scale(3, 8)))
+            xs = [c for c in conc if c.tag == "signcc-x" and c not in pick]
+            pick += rng.sample(xs, min(len(xs), ctx.scale(4, 12)))
         rel = [c for c in conc if c.tag.startswith("dynrel") and c not in pick]
         if rel:
             # concrete operands of different lengths (leading / trailing zeros, prefix, suffix): always through the SEVM too
@@ -1146,7 +1204,7 @@ def level2_inputs(ctx, D, G, scn, sr, script):
     envs = []
     k = ctx.scale(5, 10)
     base_case = max(script, key=lambda c: c.nvars())
-    for vals in G.envs(base_case, k):
+    for vals in G.envs(base_case, k, cap=ctx.scale(12, 30)):
         vals = list(vals) + [G.word() for _ in range(nv - len(vals))]
         envs.append(vals[:nv])
     inputs, seen = [], set()
@@ -1188,14 +1246,15 @@ def run_level2(ctx, R, D, asm, G, progs, by_sel):
     jobs = []          # (scn, script, chain, sr, inputs)
     lines = []
     evm_jobs = []
-    for script, chain in progs:
+    for script, chain, *fixed in progs:
+        fixed_inputs = [D.Inputs((list(fixed[0]) + [0, 0, 0, 0])[: None], 0xCAFE, 0xCAFE, 0, {}, 0)] if fixed else None
         if isinstance(script, BranchProg):
             bp = script
             scn = build_branch_scenario(D, asm, bp, chain)
             sr = D.symbolic_run(scn)
             ctx.count(f"l2-depth:{len(chain)}")
             ctx.count("l2-branch-programs")
-            inputs = branch_inputs(ctx, D, G, bp, scn, sr)
+            inputs = branch_inputs(ctx, D, G, bp, scn, sr) if fixed_inputs is None else [D.Inputs(fixed_inputs[0].args[: bp.nargs], 0xCAFE, 0xCAFE, 0, {}, 0)]
             rec = {"scn": scn, "script": bp.all_cases(), "branch": bp, "chain": chain, "sr": sr, "inputs": inputs, "idx": [], "evm": [],
                    "scripts": []}
             for inp in inputs:
@@ -1216,7 +1275,7 @@ def run_level2(ctx, R, D, asm, G, progs, by_sel):
         ctx.count(f"l2-depth:{len(chain)}")
         for op in chain:
             ctx.count("l2-callkind:" + op)
-        inputs = level2_inputs(ctx, D, G, scn, sr, script)
+        inputs = level2_inputs(ctx, D, G, scn, sr, script) if fixed_inputs is None else [D.Inputs(fixed_inputs[0].args[: scn.nargs], 0xCAFE, 0xCAFE, 0, {}, 0)]
         rec = {"scn": scn, "script": script, "chain": chain, "sr": sr, "inputs": inputs, "idx": [], "evm": []}
         for inp in inputs:
             row = []
@@ -1426,14 +1485,29 @@ def table_ties(ctx, R, entries):
         ctx.case(("utf8", s))
 
 
-def run_corpus(ctx, R, D, asm, by_sel):
+def load_corpus(ctx):
+    """stored cases; they are put at the front of the level-1 / level-2 batches (one driver run each instead of one per case)"""
     d = VERIF / "corpus" / "C13"
-    if not d.is_dir():
-        return
-    for f in sorted(d.glob("*.json")):
-        data = json.loads(f.read_text())
-        ctx.count("corpus")
-        replay_one(ctx, R, D, asm, data.get("replay", data), by_sel)
+    out = []
+    if d.is_dir():
+        for f in sorted(d.glob("*.json")):
+            data = json.loads(f.read_text())
+            out.append(data.get("replay", data))
+            ctx.count("corpus")
+    return out
+
+
+def corpus_programs(corpus):
+    progs = []
+    for data in corpus:
+        if data.get("level") != 2:
+            continue
+        args = [int(v, 16) for v in data["inputs"]]
+        if "branch" in data:
+            progs.append((BranchProg.from_json(data["branch"]), data["chain"], args))
+        else:
+            progs.append(([Case.from_json(c) for c in data["script"]], data["chain"], args))
+    return progs
 
 
 def replay_one(ctx, R, D, asm, data, by_sel):
@@ -1496,18 +1570,18 @@ def correspond(ctx):
     entries, lits = load_table()
     by_sel = {e["sel"]: e for e in entries}
     ctx.note(f"harvested integer literals: {lits}")
-    run_corpus(ctx, R, D, asm, by_sel)
+    corpus = load_corpus(ctx)
     table_ties(ctx, R, entries)
     G = Gen(ctx, entries, lits)
     # level 1
-    recs, lines = level1(ctx, R, G, entries, by_sel)
+    recs, lines = level1(ctx, R, G, entries, by_sel, corpus)
     replies = ctx.lean("Assertions").ask(lines)
     check_level1(ctx, R, recs, replies, by_sel)
     ctx.extra["level1_cases"] = len(recs)
     ctx.extra["level1_wall_s"] = round(time.time() - t0, 1)
     # level 2
     t1 = time.time()
-    progs = level2_programs(ctx, G, entries)
+    progs = corpus_programs(corpus) + level2_programs(ctx, G, entries)
     jobs, lines2, evm_jobs = run_level2(ctx, R, D, asm, G, progs, by_sel)
     replies2 = ctx.lean("Assertions").ask(lines2)
     concs = D.run_concrete_batch(ctx, evm_jobs)
@@ -1515,7 +1589,7 @@ def correspond(ctx):
     ctx.extra["level2_programs"] = len(progs)
     ctx.extra["level2_wall_s"] = round(time.time() - t1, 1)
     sel_l1 = {r["case"].sel for r in recs}
-    sel_l2 = {c.sel for s, _ in progs for c in (s.all_cases() if isinstance(s, BranchProg) else s)}
+    sel_l2 = {c.sel for s, *_ in progs for c in (s.all_cases() if isinstance(s, BranchProg) else s)}
     missing = [hex(e["sel"]) for e in entries if e["sel"] not in sel_l1 or e["sel"] not in sel_l2]
     if missing or ASSUME_SEL not in sel_l1 or ASSUME_SEL not in sel_l2:
         raise RuntimeError(f"selectors not exercised: {missing}")
